@@ -12,6 +12,8 @@ for mp in sorted(glob.glob(os.path.join(ROOT, "seeded", "*", "meta.json"))):
     what = m.get("summary") or (", ".join(os.path.basename(f) for f in files) + ": " + ", ".join(funcs[:3]))
     ran = ", ".join(f"{p} (exit {r['exit']})" for p, r in m.get("checks", {}).items())
     det = ", ".join(m.get("detected_by", [])) or ("—" if m.get("confirmed") else "not confirmed")
+    if m.get("superseded"):
+        det += " (on the tree of that time; superseded: no longer a violation after a later repair)"
     rows.append(f"| {m['seed']} | {m['properties'][0]} | {what} | {ran} | {det} |")
 s = open(os.path.join(ROOT, "DESIGN.md")).read()
 a, b = s.index("<!-- SEED-TABLE-BEGIN -->"), s.index("<!-- SEED-TABLE-END -->")
